@@ -387,6 +387,8 @@ func satAdd(a, b int64) int64 {
 
 const never = int64(1<<63 - 1)
 
+const maxMainBlockedNs = int64(2 * 3600 * 1e9)
+
 // advanceTime moves the clock to the earliest active timer and fires every
 // timer due at that instant (in creation order). Returns false if no timer is
 // pending (or only timers at "never").
@@ -533,12 +535,27 @@ func (ex *Exec) loop() {
 		}
 		if g == nil {
 			if ex.advanceTime() {
+				// a harness that stays blocked while only free-running tickers fire
+				// is hung: stop after a generous amount of virtual time
+				if ex.Clock-ex.mainLastRun > maxMainBlockedNs {
+					desc := ""
+					for _, x := range ex.gs {
+						if x.status == gBlocked {
+							desc += fmt.Sprintf("[g%d %s: %s @ %s] ", x.id, x.name, x.waitFor, ex.stackString(x))
+						}
+					}
+					ex.report(&Violation{Kind: "deadlock", Msg: "harness goroutine blocked for more than 2 virtual hours while only tickers fire: " + desc})
+					return
+				}
 				continue
 			}
 			ex.onStuck()
 			return
 		}
 		ex.cur = g
+		if g.id == 0 {
+			ex.mainLastRun = ex.Clock
+		}
 		ex.runGoroutine(g)
 		if g.status != gReady {
 			ex.cur = nil
